@@ -1067,16 +1067,54 @@ func e2eInner(t *testing.T) {
 			cliQuiet = stableSockets(cli.Process.Pid)
 		}
 	}
+	// the interface is renamed under the client (down, new name, up) and another device takes the old name: the lease is
+	// re-validated on the interface the client was started on, wherever its name went - the newcomer is not the client's
+	cliIf := "veth1"
+	if alive(cli) && alive(srv) && configured() != "" && os.Getenv("VERIF_TIER") != "thorough" {
+		seen("c15")
+		time.Sleep(2 * time.Second)
+		mark := len(tap.snapshot())
+		must("link", "set", "veth1", "down")
+		must("link", "set", "veth1", "name", "veth1x")
+		cliIf = "veth1x"
+		must("link", "add", "veth1", "type", "veth", "peer", "name", "veth1y")
+		must("link", "set", "veth1y", "up")
+		must("link", "set", "veth1", "up")
+		time.Sleep(300 * time.Millisecond)
+		must("link", "set", "veth1x", "up")
+		acked := false
+		for end := time.Now().Add(12 * time.Second); time.Now().Before(end) && !acked; time.Sleep(100 * time.Millisecond) {
+			for _, f := range tap.snapshot()[mark:] {
+				if f.outgoing && len(f.b) > 14+28 && f.b[12] == 0x08 && f.b[13] == 0 {
+					if rp := parseReply(f.b[14:]); rp.ok && rp.typ == 5 && bytes.Equal(rp.msg.chaddr, cliMAC) {
+						acked = true
+					}
+				}
+			}
+		}
+		time.Sleep(1200 * time.Millisecond)
+		if !acked {
+			bad("c15", "e2e-no-revalidation", "interface renamed (down, veth1 -> veth1x, up): no acknowledged re-validation within 12 s\n%s", tailStr(cliLog.String(), 600))
+		} else {
+			if out := ipOut("-4", "-o", "addr", "show", "dev", "veth1"); strings.Contains(out, " inet ") {
+				bad("c15", "e2e-interface", "the client's interface was renamed and another device took its old name: the lease was configured on that device: %q", strings.TrimSpace(out))
+			}
+			if out := ipOut("-4", "-o", "addr", "show", "dev", "veth1x"); strings.Count(out, " inet ") != 1 {
+				bad("c15", "e2e-interface", "after its interface was renamed and the lease re-validated the interface holds %q", strings.TrimSpace(out))
+			}
+		}
+		cliQuiet = stableSockets(cli.Process.Pid)
+	}
 	// the interface vanishes under the client: every socket it tries to open from now on fails half-way; none may be left behind
 	if alive(cli) && os.Getenv("VERIF_TIER") != "thorough" {
 		seen("c19")
 		// ... in the middle of an exchange that gets no answer: the server is stopped, a link event starts a re-validation
 		syscall.Kill(srv.Process.Pid, syscall.SIGSTOP)
-		must("link", "set", "veth1", "down")
+		must("link", "set", cliIf, "down")
 		time.Sleep(100 * time.Millisecond)
-		must("link", "set", "veth1", "up")
+		must("link", "set", cliIf, "up")
 		time.Sleep(1200 * time.Millisecond)
-		exec.Command("ip", "link", "del", "veth1").Run()
+		exec.Command("ip", "link", "del", cliIf).Run()
 		lo, hi := 1<<30, -1
 		for i := 0; i < 60 && alive(cli); i++ {
 			time.Sleep(100 * time.Millisecond)
